@@ -133,12 +133,14 @@ class Interp:
         self.dropped = {}  # qualname -> set of dropped things
         self.feas_timeout_ms = feas_timeout_ms
         self._feas_cache = {}
+        self._quant_cache = {}
         self._globals_cache = {}
         self._resolving = set()
         self._class_cache = {}
         self.contracts = {}  # qualname -> Contract
         self.use_contracts = set()
         self.stubs = {}
+        self.spec_mode = 0
         self.loop_invariants = {}  # (qualname, ordinal) -> LoopInv
         self.fresh_counter = itertools.count()
         self.sym_inputs = []
@@ -218,13 +220,40 @@ class Interp:
             return True
         if z3.is_false(e):
             return False
-        key = (tuple(t.get_id() for t in st.pc), e.get_id(), len(self.axioms))
+        # feasibility pruning uses only the quantifier-free part of the path condition: weaker premises can only
+        # keep more paths (sound), and quantified premises make these frequent small queries slow/unstable
+        qf = [t for t in st.pc if not self._has_quant(t)]
+        if self._has_quant(e):
+            return True
+        key = (tuple(t.get_id() for t in qf), e.get_id(), len(self.axioms))
         if key in self._feas_cache:
             return self._feas_cache[key]
-        r, _ = self.check(st.pc + [e])
+        r, _ = self.check(qf + [e])
         ok = r != "unsat"
         self._feas_cache[key] = ok
         return ok
+
+    def _has_quant(self, t):
+        k = t.get_id()
+        c = self._quant_cache.get(k)
+        if c is not None:
+            return c
+        seen = set()
+        todo = [t]
+        found = False
+        while todo:
+            e = todo.pop()
+            i = e.get_id()
+            if i in seen:
+                continue
+            seen.add(i)
+            if z3.is_quantifier(e) or (z3.is_app(e) and e.decl().kind() == z3.Z3_OP_ARRAY_MAP):
+                found = True
+                break
+            if z3.is_app(e):
+                todo.extend(e.children())
+        self._quant_cache[k] = found
+        return found
 
     def branch(self, st, cond):
         """-> list of (state, bool) for feasible outcomes of cond; states are independent."""
